@@ -84,6 +84,9 @@ func (e eev) term() string {
 }
 
 // runEmulator executes a history on a real emulator, deterministically.
+// emuFrag: when > 0 every incoming frame longer than that is delivered to the receive loop in two reads, split there
+var emuFrag int
+
 func runEmulator(events []eev) []string {
 	port := newEmuPort()
 	e := xsensemulator.NewEmulator(port)
@@ -109,11 +112,20 @@ func runEmulator(events []eev) []string {
 		case "recv":
 			w0 := len(port.written())
 			if alive {
-				select {
-				case port.in <- append([]byte(nil), ev.frame...):
-					wait()
-				case <-done:
-					alive = false
+				parts := [][]byte{append([]byte(nil), ev.frame...)}
+				if emuFrag > 0 && len(ev.frame) > emuFrag {
+					parts = [][]byte{append([]byte(nil), ev.frame[:emuFrag]...), append([]byte(nil), ev.frame[emuFrag:]...)}
+				}
+				for _, part := range parts {
+					if !alive {
+						break
+					}
+					select {
+					case port.in <- part:
+						wait()
+					case <-done:
+						alive = false
+					}
 				}
 			}
 			obs = append(obs, "(OWrote "+nlists(port.written()[w0:])+")")
@@ -256,6 +268,35 @@ func init() {
 		}
 		rec(nil)
 		c.count("bounded-exhaustive-histories")
+		// the same commands delivered to the receive loop in two reads, cut after 1..4 bytes (the mode must still follow them)
+		for frag := 1; frag <= 4; frag++ {
+			emuFrag = frag
+			for a := 0; a < 5; a++ {
+				for b := 0; b < 5; b++ {
+					evs := []eev{c.emuEvent(a), c.emuEvent(b), {kind: "lastid"}, c.emuEvent(5), c.emuEvent(2), c.emuEvent(0), {kind: "lastid"}, c.emuEvent(5)}
+					c.emitEmu("emu", evs)
+				}
+			}
+		}
+		emuFrag = 0
+		// transmit in measurement mode: frames at the boundaries of the standard / extended format, well-formed and not
+		for _, n := range []int{247, 248, 250, 253, 254, 255, 256, 2040, 2041, 2042, 2047, 2048} {
+			good := []byte(xsens.NewMessage(xsens.MessageIdentifierMTData2, c.payload(n)))
+			evs := []eev{c.emuEvent(2), {kind: "transmit", frame: good}}
+			// extended layout declaring n data bytes (malformed below 255), consistent size and checksum
+			ext := append([]byte{0xfa, 0xff, 0x36, 0xff, byte(n >> 8), byte(n)}, c.payload(n)...)
+			var sum byte
+			for _, x := range ext[1:] {
+				sum += x
+			}
+			ext = append(ext, -sum)
+			evs = append(evs, eev{kind: "transmit", frame: ext})
+			// and one more data byte than declared
+			evs = append(evs, eev{kind: "transmit", frame: append(append([]byte(nil), ext[:len(ext)-1]...), 0, 0)}, eev{kind: "lastid"})
+			c.emitEmu("emu", evs)
+		}
+		extra := append([]byte{0xfa, 0xff, 0x36, 0xff, 0x08, 0x01}, c.payload(2049)...)
+		c.emitEmu("emu", []eev{c.emuEvent(2), {kind: "transmit", frame: append(extra, 0)}})
 		// random longer histories, including a malformed incoming frame (the receive loop returns) and SetOutputConguration
 		for i := 0; i < c.pick(150, 1500); i++ {
 			n := 6 + c.rng.Intn(10)
